@@ -96,6 +96,10 @@ def run_stream(ctx, npairs, order, cases, image_only=False):
             # image: quantify unprimed (all of them: rename targets must be quantified), rename primed->unprimed
             ren = {p: u for u, p in zip(unprimed, primed)}
             qs = list(unprimed)
+            if rng.random() < 0.35:
+                # some renamed (primed) variables are quantified as well: legal, the
+                # precondition constrains the rename TARGETS only
+                qs = qs + rng.sample(primed, rng.randint(1, npairs))
             kind = rng.choice(['n', 'l'])
             lv = {v: M.b.vars[f'v{v}'] for v in range(n)}
             rn = ren if kind == 'n' else {lv[k]: lv[v] for k, v in ren.items()}
